@@ -73,7 +73,7 @@ def gen_design(r, ncells=None, nlibs=None):
                 props = []
                 for q in range(r.choice([0, 0, 1, 2])):
                     t = r.choice(["string", "integer", "boolean"])      # C05's quantifier: string/integer/boolean (number types: see DESIGN 7)
-                    v = {"string": r.choice(["8'hA5", "soft lut", "", "x(y)", "a\tb"]), "integer": r.choice([0, 7, -3, 123456789012]),
+                    v = {"string": r.choice(["8'hA5", "soft lut", "", "x(y)", "a\tb"]), "integer": r.choice([0, 7, -3, 123456789012, 18446744073709551615, 9007199254740993]),
                          "boolean": r.choice([True, False])}[t]
                     props.append((namedef("PROP", 0.3), t, v))
                 cell["insts"].append({"name": namedef("inst", 0.3), "cell": tc["name"][0], "lib": libs[tl]["name"][0], "props": props,
@@ -87,10 +87,17 @@ def gen_design(r, ncells=None, nlibs=None):
             r.shuffle(eps)
             nets = []
             # scalar nets
+            lookalike = None
             for j in range(r.randint(0, 4)):
                 k2 = min(len(eps), r.choice([0, 1, 2, 2, 3, 5]))
                 joined, eps = eps[:k2], eps[k2:]
-                nets.append({"base": None, "index": None, "name": namedef("net", 0.3), "joined": joined})
+                nm_ = namedef("net", 0.3)
+                if r.random() < 0.2:
+                    # a plain (un-renamed) net whose identifier merely LOOKS like a bus bit (st_2_, st_5_): only a rename to
+                    # name[i] makes a bit net - these stay scalar nets of their own
+                    lookalike = lookalike or ident("st")
+                    nm_ = ("%s_%d_" % (lookalike, 2 + 3 * j), None)
+                nets.append({"base": None, "index": None, "name": nm_, "joined": joined})
             # bus nets: bits in random order, possibly with gaps
             prev_bus = None
             mine = []
